@@ -65,6 +65,17 @@ pub fn with_fsync(mut s: Scenario) -> Scenario {
     s
 }
 
+/// S5: a sparse file (data, hole, data in 4 KiB units: the extent / segment paths) next to a dense two-block file
+pub fn s5(driver: &str, workers: u32) -> Scenario {
+    let w = workers.to_string();
+    let tree = vec![
+        Entry::dir("src"),
+        Entry::new("src/sp", crate::scen::Kind::File(crate::scen::Content::Layout { unit: 4096, units: vec![true, false, true], tail: 100, seed: 31 })).mode(0o604).mtime(1_300_000_007, 70),
+        Entry::gen("src/de", 6000, 32).mode(0o640).mtime(1_300_000_008, 80),
+    ];
+    Scenario::new(&format!("S5-sparse-{}-w{}", driver, workers), tree, &["-r", "--driver", driver, "-w", &w, "--block-size", "4096", "src", "dst"])
+}
+
 /// tiny: parblock, one file of two blocks, two workers (the smallest scenario with a block race)
 pub fn tiny(driver: &str) -> Scenario {
     let tree = vec![Entry::dir("src"), Entry::file("src/a", "01234567").mode(0o640).mtime(1_300_000_000, 1)];
@@ -130,6 +141,7 @@ pub fn schedule_jobs(quick: bool, tf: &dyn Fn(Scenario) -> Scenario) -> Vec<(Str
         add("S3 fsync+backup onto populated dst, both drivers w2", vec![s3("parblock", 2), s3("parfile", 2)], 1);
         add("S1 under parblock (driver agreement) w2", vec![s1_driver("parblock", 2)], 1);
         add("S4 w8 parblock", vec![s2(8, 4)], 1);
+        add("S5 sparse + dense, both drivers w2", vec![s5("parblock", 2), s5("parfile", 2)], 1);
         add("S4 w64 both drivers", vec![s1(64), s2(64, 4)], 0);
         add("tiny parblock", vec![tiny("parblock")], 2);
     } else {
@@ -139,6 +151,7 @@ pub fn schedule_jobs(quick: bool, tf: &dyn Fn(Scenario) -> Scenario) -> Vec<(Str
         add("S3 fsync+backup onto populated dst, both drivers w2", vec![s3("parblock", 2), s3("parfile", 2)], 2);
         add("S1 under parblock (driver agreement) w2", vec![s1_driver("parblock", 2)], 2);
         add("S4 w{8,64} both drivers", vec![s1(8), s2(8, 4), s1(64), s2(64, 4)], 1);
+        add("S5 sparse + dense, both drivers w{2,3}", vec![s5("parblock", 2), s5("parfile", 2), s5("parblock", 3)], 2);
         add("tiny both drivers", vec![tiny("parblock"), tiny("parfile")], 3);
     }
     drop(add);
